@@ -67,6 +67,9 @@ def gen_c16(rng, tier, n):
         for t in names:
             lines.append("replay 9 9 %d 1 %d" % (t, rng.choice([0, 0, 4])))
         cases.append(lines)
+    # racing registrations of opposite edges (implementation-side judge: never both accepted)
+    for _ in range(3 if tier == "quick" else 30):
+        cases.append(["racereg %d" % (300 if tier == "quick" else 2000)])
     return cases
 
 def gen_c17(rng, tier, n):
